@@ -442,7 +442,12 @@ fn lex_block_comment(l: &mut Lexer<'_>, index: usize) -> Option<CommentedTokenTr
     let mut unclosed_indices = vec![index];
 
     let unclosed_multiline_comment = |l: &Lexer<'_>, unclosed_indices: Vec<_>| {
-        let span = span(l, *unclosed_indices.last().unwrap(), l.src.text.len() - 1);
+        // `len - 1` can be inside the last character if that one is multi-byte.
+        let mut end = l.src.text.len() - 1;
+        while !l.src.text.is_char_boundary(end) {
+            end -= 1;
+        }
+        let span = span(l, *unclosed_indices.last().unwrap(), end);
         let kind = LexErrorKind::UnclosedMultilineComment { unclosed_indices };
         error(l.handler, LexError { kind, span });
         None
@@ -586,22 +591,25 @@ fn lex_char(
         let mut string = String::new();
         string.push(parsed);
         string.push(escape(l, next_char)?);
-        loop {
-            let (_, next_char) = next(l)?;
+        let close_quote_index = loop {
+            let (quote_index, next_char) = next(l)?;
             if is_quote(next_char) {
-                break;
+                break quote_index;
             }
             string.push(next_char);
-        }
+        };
 
         // Emit the expected closing quote error.
+        // The span runs from the second character to the closing quote. It must be computed
+        // from source positions: the byte length of the parsed `string` differs from the length
+        // of its source text when it contains multi-byte characters or escape sequences.
         error(
             l.handler,
             LexError {
                 kind: LexErrorKind::ExpectedCloseQuote {
                     position: next_index,
                 },
-                span: span(l, next_index, next_index + string.len()),
+                span: span(l, next_index, close_quote_index + 1),
             },
         );
 
@@ -644,8 +652,9 @@ fn parse_escape_code(l: &mut Lexer<'_>) -> core::result::Result<char, Option<Err
             match l.stream.next() {
                 None => return Err(None),
                 Some((_, '{')) => (),
-                Some((_, unexpected_char)) => {
-                    let span = span_one(l, index, unexpected_char);
+                Some(_) => {
+                    // Points at the `u`; the length of the unexpected character is irrelevant.
+                    let span = span_one(l, index, 'u');
                     let kind = LexErrorKind::UnicodeEscapeMissingBrace { position: index };
                     return error(kind, span);
                 }
